@@ -545,3 +545,8 @@ _RULE_ADD7['C12'] = _RULE_ADD7['C11']
 _RULE_ADD7['C02'] = _RULE_ADD7['C01']
 for _p, _t in _RULE_ADD7.items():
     PROPS[_p]['rule'] = PROPS[_p]['rule'] + _t
+
+for _p in ('C04', 'C05', 'C06'):
+    PROPS[_p]['min_obs'] = dict(PROPS[_p]['min_obs'])
+    PROPS[_p]['min_obs']['quick'] = dict(PROPS[_p]['min_obs'].get('quick', {}), **{'histories_with_an_eight_byte_hardware_address': 500})
+    PROPS[_p]['rule'] = PROPS[_p]['rule'] + ' One history in eight makes a station with an EUI-64 (8 byte) hardware address known through Capture / Release / SetDHCPv4IPOffer; its first six bytes are those of another station.'
